@@ -295,6 +295,128 @@ def spec_rows_vs_coq(case, spec_rows, coq_spec):
 
 
 # ------------------------------------------------------------------------------------------------
+# forced schedules of racing set_global_default calls (needs the H3 call sites 70/71/72: hooks/H3_dispatch_global.patch)
+
+SCHED_REQUIRES = ("From Coq Require Import NArith List.\nImport ListNotations.\n"
+                  "From TV Require Import Dispatch.Model Dispatch.SetGlobalSched.\nLocal Open Scope N_scope.")
+
+
+def sched_text(c):
+    return "threads %d\nsched %s\n" % (c["threads"], " ".join(map(str, c["sched"])))
+
+
+def sched_oracle(c, rows):
+    """The property's clause on the implementation's observations alone: at most one call ever returns Ok; once every call has
+    returned exactly one did; get_global() is the no-op dispatcher until the winner has returned and the winner's dispatcher from
+    then on (never a loser's, never a half-written one); an emission goes to exactly that dispatcher."""
+    n = c["threads"]
+    for i, r in enumerate(rows):
+        oks = [u for u in range(n) if r["res"][u] == 1]
+        if len(oks) > 1:
+            return "set_global_default returned Ok for %d racing calls (threads %s)" % (len(oks), oks), i
+        if r["g"] != 0 and (r["g"] - 1 not in oks):
+            return "get_global() hands out collector %d although its set_global_default call has not returned Ok (results %s)" % (r["g"] - 1, r["res"]), i
+        if oks and r["g"] != oks[0] + 1:
+            return "set_global_default of thread %d returned Ok but get_global() hands out %d (0 = none, c+1 = collector c)" % (oks[0], r["g"]), i
+        if r["recv"] != ([r["g"] - 1] if r["g"] > 0 else []):
+            return "an emission with no scope anywhere was received by %s while the global default is %d" % (r["recv"], r["g"]), i
+        if 0 not in r["res"] and len(oks) != 1:
+            return "every racing call has returned and %d of them returned Ok" % len(oks), i
+    return None
+
+
+def schedules(ctx, rep, d, only=None):
+    hooks = d.get("hooks_setglobal", [])
+    if sorted(hooks) != [70, 71, 72]:
+        rep.count("set_global_default forced-schedule leg: SKIPPED (no H3 call sites 70/71/72 in set_global_default: hooks/H3_dispatch_global.patch not applied)")
+        rep.assumptions.append("schedules of set_global_default's real micro-steps are not forced on this tree (H3 call sites 70/71/72 absent); "
+                               "the micro-step model is tied to the source by the translator (C02_global_init_numbers) only")
+        return
+    ok, paths, log = vlib.cargo_build(ctx, "dispatch", ["h_setglobal"])
+    if not ok:
+        rep.tie("build:h_setglobal", False, vlib.last_error(log))
+        return
+    exe = paths["h_setglobal"]
+    cases = {}
+    if only is not None:
+        cases["replay"] = only
+    else:
+        import itertools
+        for sch in itertools.product(range(2), repeat=6):            # two racing calls: EVERY schedule (and, by prefixes, every partial one)
+            cases["n2:" + "".join(map(str, sch))] = {"threads": 2, "sched": list(sch)}
+        if ctx.thorough():
+            for sch in itertools.product(range(3), repeat=7):        # three racing calls: every schedule of 7 turns (5 suffice to finish)
+                cases["n3:" + "".join(map(str, sch))] = {"threads": 3, "sched": list(sch)}
+        else:
+            for i in range(160):
+                n = ctx.rng.choice([3, 3, 4])
+                cases["r%d" % i] = {"threads": n, "sched": [ctx.rng.randrange(n + (1 if i % 10 == 9 else 0)) for _ in range(ctx.rng.randint(3, 9))]}
+    path = os.path.join(ctx.work, "setglobal.cases")
+    with open(path, "w") as f:
+        for cid, c in cases.items():
+            f.write("case %s\n%s" % (cid, sched_text(c)))
+    rc, out = vlib.run_bin(exe, ["--batch", path, str(vlib.NCPU)], timeout=1800)
+    import json
+    impl = {}
+    for l in out.splitlines():
+        if l.startswith("{"):
+            r = json.loads(l)
+            impl[r["case"]] = r
+    bad = [cid for cid in cases if cid not in impl or impl[cid]["rc"] != 0 or len(impl[cid]["out"]) != len(cases[cid]["sched"]) + 1]
+    if bad:
+        rep.tie("run:h_setglobal", False, "%d schedules crashed / hung / truncated" % len(bad), {"case": cases[bad[0]], "impl": impl.get(bad[0])})
+    good = [cid for cid in cases if cid not in bad]
+    nviol = 0
+    for cid in good:
+        c = cases[cid]
+        rows = impl[cid]["out"][1:]
+        rep.evaluations += 1
+        rep.count("forced schedules of %d racing set_global_default calls" % c["threads"])
+        if any(r["res"].count(0) == 0 for r in rows):
+            rep.count("forced schedules in which every racing call returned")
+        rep.nontrivial.add("setglobal " + sched_text(c))
+        v = sched_oracle(c, rows)
+        if v and nviol < 3:
+            nviol += 1
+            what, at = v
+            small = {"threads": c["threads"], "sched": c["sched"][:at + 1]}
+            rep.violation(what, {"threads": small["threads"], "sched": small["sched"], "text": sched_text(small), "observed": rows[:at + 1], "found_in": cid})
+    try:
+        ids = good
+        terms = []
+        # turns of a thread that does not exist (malformed stream) are no-ops for the implementation: the model gets the schedule without them
+        valid = {c: [t for t in cases[c]["sched"] if t < cases[c]["threads"]] for c in ids}
+        for i in range(0, len(ids), 200):
+            part = ids[i:i + 200]
+            terms.append(("s%d" % i, "[" + "; ".join("sg_case %d [%s]" % (cases[c]["threads"], "; ".join(map(str, valid[c]))) for c in part) + "]"))
+        res = vlib.coq_eval(ctx, SCHED_REQUIRES, terms, tag="setglobal", shards=min(vlib.NCPU, max(1, len(terms))))
+        dis = []
+        for i in range(0, len(ids), 200):
+            for cid, mrows in zip(ids[i:i + 200], res["s%d" % i]):
+                rows = impl[cid]["out"][1:]
+                n = cases[cid]["threads"]
+                prev = [impl[cid]["out"][0]["g0"]] + [0] * n
+                k2 = 0
+                for k, r in enumerate(rows):
+                    t = cases[cid]["sched"][k]
+                    if t < n:
+                        m = mrows[k2]
+                        k2 += 1
+                        got = [r["g"], r["pc"]] + r["res"]
+                        want = list(m)
+                        prev = [m[0]] + list(m[2:])
+                    else:
+                        got = [r["g"]] + r["res"]
+                        want = prev
+                    if got != want:
+                        dis.append({"case_id": cid, "case": cases[cid], "turn": k, "impl": got, "model": want})
+                        break
+        rep.tie("correspondence:set_global_default micro-steps under forced schedules (Model.sg_step)", not dis,
+                "%d of %d schedules disagree" % (len(dis), len(ids)), dis[:1] or None)
+        rep.traces_validated += len(ids) - len(dis)
+    except Exception as ex:
+        rep.tie("model-eval:setglobal", False, str(ex)[:400])
+
 
 def run(ctx):
     rep = Report(ctx)
@@ -327,8 +449,15 @@ def run(ctx):
     pool, smax = info["pool"], info["static_max"]
     cases = {}
     if ctx.replay:
+        import json
+        j = json.load(open(ctx.replay))
+        c = j.get("case", j)
+        if "sched" in c:
+            schedules(ctx, rep, d, only={"threads": c["threads"], "sched": c["sched"]})
+            return rep
         cases["replay"] = D.load_replay(ctx.replay)
     else:
+        schedules(ctx, rep, d)
         cases.update(D.load_corpus("C02"))
         n = 6000 if not ctx.thorough() else 25000
         for i in range(n):
